@@ -32,6 +32,7 @@ type Scenario struct {
 type DocSpec struct {
 	JSON   string `json:"json"`
 	Number bool   `json:"number,omitempty"` // decode numbers as json.Number instead of float64
+	Native bool   `json:"native,omitempty"` // vars only: top-level values as a Go caller builds them (int, []string, []int)
 }
 
 // TaskSpec is one logical goroutine and its operation list.
@@ -41,8 +42,9 @@ type TaskSpec struct {
 
 // OpSpec is one public-API call.
 type OpSpec struct {
-	Kind   string `json:"kind"` // query first exists match existsormatch string marshal ispredicate parse parsequery
+	Kind   string `json:"kind"` // query first exists match existsormatch string marshal ispredicate parse parsequery scan unmarshal
 	Path   int    `json:"path"`
+	Path2  int    `json:"path2,omitempty"` // scan/unmarshal: text scanned into the caller's own fresh parse of Path
 	Doc    int    `json:"doc"`
 	Vars   int    `json:"vars"` // -1: none
 	Silent bool   `json:"silent,omitempty"`
@@ -133,6 +135,10 @@ func (s *Scenario) Validate() error {
 			switch o.Kind {
 			case "query", "first", "exists", "match", "existsormatch", "parsequery",
 				"string", "marshal", "ispredicate", "parse":
+			case "scan", "unmarshal":
+				if o.Path2 < 0 || o.Path2 >= len(s.Paths) {
+					return fmt.Errorf("scenario: %s: bad path2 index", where)
+				}
 			default:
 				return fmt.Errorf("scenario: %s: bad kind %q", where, o.Kind)
 			}
